@@ -127,6 +127,39 @@ func subset(a, b []string) bool {
 }
 
 // caseSet: the case labels of the first `switch v.Type.Type` in fd.
+// caseEmitters: for the first switch of a dispatcher, case expression -> the g.genXxx method called
+// first in that case (the emitter for that type).
+func caseEmitters(fd *ast.FuncDecl) map[string]string {
+	out := map[string]string{}
+	done := false
+	ast.Inspect(fd.Body, func(n ast.Node) bool {
+		sw, ok := n.(*ast.SwitchStmt)
+		if !ok || done {
+			return true
+		}
+		done = true
+		for _, st := range sw.Body.List {
+			cc := st.(*ast.CaseClause)
+			callee := ""
+			for _, bs := range cc.Body {
+				ast.Inspect(bs, func(m ast.Node) bool {
+					if c, ok := m.(*ast.CallExpr); ok && callee == "" {
+						if se, ok := c.Fun.(*ast.SelectorExpr); ok && strings.HasPrefix(se.Sel.Name, "gen") {
+							callee = se.Sel.Name
+						}
+					}
+					return true
+				})
+			}
+			for _, e := range cc.List {
+				out[exprStr(e)] = callee
+			}
+		}
+		return false
+	})
+	return out
+}
+
 func caseSet(fd *ast.FuncDecl) []string {
 	var out []string
 	done := false
@@ -193,19 +226,55 @@ func init() {
 		Doc: "emitter siblings agree: genWriteVar and genReadVar dispatch over the same type cases; paired container emitters feed their recursive element emitters with the same element tags (list 0; map key 0 / value 1); the tags the proxy emitter writes arguments under are the tags the dispatcher emitter reads them under and vice versa for results (argument k at k+1, return value 0); the loop-counter suffix is advanced before an emitter recurses; per-entry temporaries of the map reader are declared inside the emitted loop",
 		Run: func(r *R) {
 			fns := genFuncs(r.w)
-			need := []string{"genWriteVar", "genReadVar", "genWriteVector", "genReadVector", "genWriteArray", "genReadArray", "genWriteMap", "genReadMap", "genIFProxyFun", "genSwitchCase"}
-			for _, n := range need {
+			for _, n := range []string{"genWriteVar", "genReadVar", "genIFProxyFun", "genSwitchCase"} {
 				if fns[n] == nil {
 					r.AnchorMissing("gencode." + n)
 					return
 				}
+			}
+			// the container emitters are whatever the two dispatchers call for the vector, array and map cases
+			// (an array emitter merged into the vector emitter is the same function for both cases)
+			wEm, rEm := caseEmitters(fns["genWriteVar"]), caseEmitters(fns["genReadVar"])
+			need := []string{"genWriteVar", "genReadVar"}
+			var pairs [][2]string
+			for _, k := range []string{"token.TVector", "token.TArray", "token.TMap"} {
+				w, rd := wEm[k], rEm[k]
+				if w == "" || rd == "" || fns[w] == nil || fns[rd] == nil {
+					r.AnchorMissing("gencode: emitters for case " + k + " (writer " + w + ", reader " + rd + ")")
+					return
+				}
+				dup := false
+				for _, p := range pairs {
+					if p[0] == w && p[1] == rd {
+						dup = true
+					}
+				}
+				if !dup {
+					pairs = append(pairs, [2]string{w, rd})
+				}
+				for _, n := range []string{w, rd} {
+					have := false
+					for _, x := range need {
+						if x == n {
+							have = true
+						}
+					}
+					if !have {
+						need = append(need, n)
+					}
+				}
+			}
+			need = append(need, "genIFProxyFun", "genSwitchCase")
+			var readEmitters []string
+			for _, p := range pairs {
+				readEmitters = append(readEmitters, p[1])
 			}
 			where := func(n string) string { return "tars2go/gencode." + n }
 			// G1
 			cw, cr := caseSet(fns["genWriteVar"]), caseSet(fns["genReadVar"])
 			r.Check(strings.Join(cw, ",") == strings.Join(cr, ","), where("genWriteVar/genReadVar"), "same type cases", fns["genReadVar"].Pos(), "both dispatch over %v", "the writer dispatches over %v but the reader over %v: a type is written in one form and read in another", cw, cr)
 			// G2 containers
-			for _, pair := range [][2]string{{"genWriteVector", "genReadVector"}, {"genWriteArray", "genReadArray"}, {"genWriteMap", "genReadMap"}} {
+			for _, pair := range pairs {
 				a, b := tagSeq(dummiesOf(fns[pair[0]]), "W"), tagSeq(dummiesOf(fns[pair[1]]), "R")
 				want := []string{"0"}
 				if strings.Contains(pair[0], "Map") {
@@ -247,7 +316,7 @@ func init() {
 			}
 			r.Check(hasK1(pw) && hasK1(drd) && has0(prd) && has0(dw), where("genIFProxyFun/genSwitchCase"), "argument k at tag k+1, return value at tag 0", fns["genIFProxyFun"].Pos(), "tag convention of the Tars RPC protocol", "the emitters do not use the protocol's convention (argument k under tag k+1, return value under tag 0): peers generated by other Tars implementations cannot interoperate")
 			// G3 counter before recursion
-			for _, n := range []string{"genReadVector", "genReadArray", "genReadMap"} {
+			for _, n := range readEmitters {
 				ev := stmtEvents(fns[n])
 				seenInc, okk := false, true
 				for _, e := range ev {
